@@ -119,6 +119,29 @@ Definition float_lit (s : string) : bool :=
       else false
   end.
 
+(* MIP.mip.datacard.to_float: float() first, else the Fortran spellings
+   mantissa [dD]? [-+]? digits+ (5.0+0, 5.0d0, 6.40875-2); mantissa = digits+
+   with an optional point and more digits, or a point followed by digits+ *)
+Definition exp_part (r : string) : bool :=
+  let '(n3, r3) := skip_digits (drop_sign r) in
+  (0 <? n3)%nat && match r3 with EmptyString => true | _ => false end.
+
+Definition fortran_lit (s : string) : bool :=
+  let s := drop_sign s in
+  let '(n1, r1) := skip_digits s in
+  let '(dot, n2, r2) := match r1 with
+                        | String "." r => let '(n, t) := skip_digits r in (true, n, t)
+                        | _ => (false, O, r1)
+                        end in
+  if ((0 <? n1)%nat || (dot && (0 <? n2)%nat)) then
+    match r2 with
+    | String c r => if Ascii.eqb c "d" || Ascii.eqb c "D" then exp_part r else exp_part r2
+    | EmptyString => false
+    end
+  else false.
+
+Definition num_lit (s : string) : bool := float_lit s || fortran_lit s.
+
 Fixpoint contains_sub (sub s : string) : bool :=
   prefix sub s || match s with EmptyString => false | String _ r => contains_sub sub r end.
 
@@ -406,7 +429,7 @@ Section Num.
                 | Some n => expand r expected (acc ++ repeat None (Z.to_nat n)) (Datatypes.S consumed)
                 end
               else if Ascii.eqb c "i" || Ascii.eqb c "m" || Ascii.eqb c "g" then XErr EUnmodelled
-              else if float_lit s
+              else if num_lit s
               then expand r expected (acc ++ [Some (tval t, tint t)]) (Datatypes.S consumed)
               else XErr EValue
           end
@@ -461,10 +484,13 @@ Section Num.
     f_univs : list (option Z);     (* FILL=n: [Some n] with f_bounds = None *)
     f_trlen : nat }.
 
-  Definition fill_params (star : bool) (trs : list (Z * nat)) (l : list tok)
+  (* [isfill]: a starred FILL without numbers has no transformation (c2e06ed);
+     a starred TRCL without numbers still goes through normalize_transform([]),
+     the identity with 12 entries *)
+  Definition fill_params (isfill star : bool) (trs : list (Z * nat)) (l : list tok)
     : res (nat * list tok) :=
     let '(ps, rest) := span numeric_lead l in
-    if negb (forallb (fun p => float_lit (tsp p)) ps) then Err EValue else
+    if negb (forallb (fun p => num_lit (tsp p)) ps) then Err EValue else
     let n := List.length ps in
     match ps with
     | [p] =>
@@ -474,7 +500,7 @@ Section Num.
         end
     | _ =>
         if (n =? 3)%nat then Ok (12%nat, rest)
-        else if (n =? 0)%nat then Ok (0%nat, rest)
+        else if (n =? 0)%nat then Ok ((if star && negb isfill then 12 else 0)%nat, rest)
         else if star then do k <- norm_tr_len (map tval ps); Ok (k, rest)
         else do k <- norm_tr_len (map tval ps); Ok (k, rest)
     end.
@@ -483,7 +509,7 @@ Section Num.
          the transformation part of parse_fill_kw (floats, TR number, three
          entries, starred or not through normalize_transform) --- *)
   Definition parse_trcl (star : bool) (trs : list (Z * nat)) (l : list tok)
-    : res (nat * list tok) := fill_params star trs l.
+    : res (nat * list tok) := fill_params false star trs l.
 
   Definition has_colon (t : tok) : bool := contains_char ":" (tsp t).
 
@@ -500,11 +526,11 @@ Section Num.
           | XErr e => Err e
           | XOk vals consumed =>
               let r3 := if (consumed =? 0)%nat then [] else skipn consumed r2 in
-              do (k, rest) <- fill_params star trs r3;
+              do (k, rest) <- fill_params true star trs r3;
               Ok (mkFill (Some b) (map (option_map snd) vals) k, rest)
           end
         else if float_lit (tsp first) then
-          do (k, rest) <- fill_params star trs r1;
+          do (k, rest) <- fill_params true star trs r1;
           Ok (mkFill None [Some (tint first)] k, rest)
         else Err EValue
     end.
